@@ -1,5 +1,6 @@
 from __future__ import annotations
 
+import hashlib
 import re
 import sys
 import unicodedata
@@ -120,6 +121,12 @@ def read(file: Path) -> Model:
 
     """
     model = pysbml.load_and_transform_model(file)
-    out_name = valid_filename(file.stem)
+    # The generated module has to be unique per document: files with the same
+    # stem (a/m.xml, b/m.xml) or a changed file must not overwrite the source
+    # of an already imported model, which is looked up again later
+    digest = hashlib.sha256(
+        str(file.resolve()).encode() + b"\0" + file.read_bytes()
+    ).hexdigest()[:12]
+    out_name = f"{valid_filename(file.stem)}_{digest}"
     model_fn = import_from_path(out_name, _codegen(out_name, model))
     return model_fn()
